@@ -3,6 +3,7 @@ package main
 import (
 	"fmt"
 	"math/big"
+	"os"
 	"sort"
 	"strings"
 )
@@ -487,7 +488,7 @@ func (ts *TermStore) Select(a, i *Term) *Term {
 			a = a.Args[0]
 			continue
 		}
-		if i != j && ts.FreshRefs[i] && ts.FreshRefs[j] { // two different allocations
+		if i != j && ts.FreshRefs[i] && ts.FreshRefs[j] && os.Getenv("GOVC_NOFRESH") == "" { // two different allocations
 			a = a.Args[0]
 			continue
 		}
